@@ -22,6 +22,7 @@
 
 #include <algorithm>
 #include <stdexcept>
+#include <tuple>
 #include <type_traits>
 #include <vector>
 
@@ -85,7 +86,16 @@ private:
     return !key_comp()(k1, k2) && !key_comp()(k2, k1);
   }
 
-  void resort() { std::sort(_data.begin(), _data.end(), value_comp()); }
+  //! sorts and, like std::map, keeps the first of several elements with
+  //! equivalent keys
+  void resort() {
+    std::stable_sort(_data.begin(), _data.end(), value_comp());
+    _data.erase(std::unique(_data.begin(), _data.end(),
+                            [this](const value_type& a, const value_type& b) {
+                              return key_eq(a.first, b.first);
+                            }),
+                _data.end());
+  }
 
 public:
   typedef typename _Pair_alloc_type::pointer pointer;
